@@ -60,6 +60,10 @@ def requests(tier):
         for jid in (1, 2, 3):
             for p in itertools.product(inup, absp):
                 out.append((variant, (jid,), (p,)))
+        # the same single-spec bunches WITHOUT the second bunch: the update has a hole and must not be committable
+        for jid in (1, 2):
+            for p in itertools.product(inup, absp):
+                out.append((variant + '+hole', (jid,), (p,)))
     return out
 
 
@@ -109,6 +113,8 @@ def drive(w):
 
 def evaluate(req):
     variant, ids, parents = req
+    hole = variant.endswith('+hole')
+    variant = variant.split('+')[0]
     UPD = VARIANTS[variant]['upd']
     w, base = world(variant)
     w.restore(base)
@@ -135,6 +141,21 @@ def evaluate(req):
         return res
     if not accepted:
         res['viol'] = ('well-formed-submission-refused', f'submission {describe(req)} is well-formed but was refused: {obs}')
+        return res
+    if hole:
+        # only one of the two reserved jobs was submitted: the commit must be refused and must not change anything
+        dump1 = w.mdb.store.dump(drop=bf.DROP)
+        oc = ops.apply(w, ('commit', 'u1', UPD))
+        if oc.get('status') == 200:
+            drive(w)
+            b = w.table('batches')[0]
+            states = [(j['job_id'], j['state']) for j in w.table('jobs')]
+            res['viol'] = ('update-with-missing-jobs-committed',
+                           f'{describe(req)}: only job {ids[0]} of the 2 reserved jobs was submitted, yet commit -> {oc}; after driving every job '
+                           f'batch state={b["state"]} n_jobs={b["n_jobs"]} jobs={states}')
+        elif w.mdb.store.dump(drop=bf.DROP) != dump1:
+            res['viol'] = ('refused-commit-changed-store', f'{describe(req)}: commit refused ({oc}) but the database changed')
+        res['finished'] = True
         return res
     if len(ids) == 1:  # send the other job of the update, well-formed and without dependencies
         other = 2 if ids[0] == 1 else 1
@@ -188,13 +209,13 @@ def check(tier, seed, procs):
         'ill_formed_by_class': {c: sum(1 for r in rows if c in r['classes']) for c in
                                 ('self-parent', 'later-parent', 'missing-parent', 'job-id-outside-range')},
         'bounds': 'two situations: (later) update 1 (jobs 1,2) committed, update 2 (reserved job 3) abandoned, update 3 (2 reserved jobs, ids 4-5) open; (first) fresh batch whose first update (ids 1-2) is open; duplicate naming of a parent included',
-        'duplicate_parent_submissions_accepted_and_finished': sum(1 for r in rows if r.get('finished') and 'duplicate-parent' in classify(*r['req'])),
+        'duplicate_parent_submissions_accepted_and_finished': sum(1 for r in rows if r.get('finished') and 'duplicate-parent' in classify(r['req'][0].split('+')[0], *r['req'][1:])),
     }
     return {'coverage': cov, 'violations': viol, 'assumptions': bf.ASSUME, 'level': 'model_checking',
             'vacuous': None if ill > 10 and cov['well_formed_driven_to_completion'] > 10 else 'too few cases'}
 
 
 def replay(obj):
-    variant, ids, parents = obj['req'] if len(obj['req']) == 3 else ['later'] + list(obj['req'])
+    variant, ids, parents = obj['req'] if len(obj['req']) == 3 else ['later'] + list(obj['req'])  # variant may carry '+hole'
     r = evaluate((variant, tuple(ids), tuple((tuple(a), tuple(b)) for a, b in parents)))
     return r['viol'] is None, (r['viol'][1] if r['viol'] else 'no violation')
